@@ -905,7 +905,7 @@ pub fn run_catalogue(ctx: &mut Ctx) -> R {
     edit("reserved bit depth code 011", hb + 28, 3, 3, true);
     let s0 = &f.subs[0];
     edit("subframe padding bit set", s0.header_bit, 1, 1, false);
-    for t in [2u64, 5, 7, 13, 20, 31] {
+    for t in (2u64..=7).chain(13..=31) {
         edit(&format!("reserved subframe type {t}"), s0.header_bit + 1, 6, t, false);
     }
     for s in &f.subs {
